@@ -189,7 +189,8 @@ def norm_path(p):
             p = post
         else:
             break
-    return p
+    # nesting depth of tuples inside a constant is not part of the location
+    return re.sub(r"(\[\*\])+", "[*]", p) if p else p
 
 
 def shuffle_doc(v, rng, keys, fsets, touched):
@@ -217,7 +218,7 @@ def transport(text, f, stats):
     t = f.get("transcode")
     if f.get("shuffle_keys") is not None or f.get("shuffle_fs") is not None:
         touched = [0]
-        doc = json.loads(text)
+        doc = json.loads(text)  # Python's json accepts NaN/Infinity tokens
         r = prng.PRNG(f.get("shuffle_keys") if f.get("shuffle_keys") is not None else f.get("shuffle_fs"))
         doc = shuffle_doc(doc, r, f.get("shuffle_keys") is not None, f.get("shuffle_fs") is not None, touched)
         text = json.dumps(doc, ensure_ascii=True)
@@ -225,20 +226,25 @@ def transport(text, f, stats):
         if touched[0]:
             stats["frozenset_listing_shuffled"] = stats.get("frozenset_listing_shuffled", 0) + 1
     if t:
-        if t["lib"] == "orjson":
-            opt = orjson.OPT_SORT_KEYS if t.get("sort_keys") else 0
-            if t.get("indent"):
-                opt |= orjson.OPT_INDENT_2
-            text = orjson.dumps(orjson.loads(text), option=opt).decode("utf-8")
-            stats["fault_transcode_orjson"] = stats.get("fault_transcode_orjson", 0) + 1
-        else:
-            kw = {"ensure_ascii": bool(t.get("ensure_ascii")), "sort_keys": bool(t.get("sort_keys"))}
-            if t.get("indent"):
-                kw["indent"] = 2
-            elif t.get("compact"):
-                kw["separators"] = (",", ":")
-            text = json.dumps(json.loads(text), **kw)
-            stats["fault_transcode_json"] = stats.get("fault_transcode_json", 0) + 1
+        # a transcoder that cannot take the text (e.g. orjson on a NaN token) leaves it as it is: whether
+        # the text is strict JSON is C07's monitor J1, not the transport's business
+        try:
+            if t["lib"] == "orjson":
+                opt = orjson.OPT_SORT_KEYS if t.get("sort_keys") else 0
+                if t.get("indent"):
+                    opt |= orjson.OPT_INDENT_2
+                text = orjson.dumps(orjson.loads(text), option=opt).decode("utf-8")
+                stats["fault_transcode_orjson"] = stats.get("fault_transcode_orjson", 0) + 1
+            else:
+                kw = {"ensure_ascii": bool(t.get("ensure_ascii")), "sort_keys": bool(t.get("sort_keys"))}
+                if t.get("indent"):
+                    kw["indent"] = 2
+                elif t.get("compact"):
+                    kw["separators"] = (",", ":")
+                text = json.dumps(json.loads(text), **kw)
+                stats["fault_transcode_json"] = stats.get("fault_transcode_json", 0) + 1
+        except (ValueError, TypeError, orjson.JSONDecodeError, orjson.JSONEncodeError):
+            stats["transcoder_declined"] = stats.get("transcoder_declined", 0) + 1
     return text
 
 
@@ -617,7 +623,7 @@ def gen_cli_plan(seed, tier):
     ver = rng.choice(hubutil.OLD)
     hs = rng.randint(0, 2 ** 32 - 1)
     same_seed = rng.chance(0.7)
-    invalid = rng.chance(0.18)
+    invalid = rng.chance(0.2)
     flags = {k: rng.chance(0.4) for k in OUT_FLAGS}
     kind = rng.weighted([("file", 3), ("c", 3), ("e", 2), ("m", 1)])
     src = None
@@ -629,14 +635,24 @@ def gen_cli_plan(seed, tier):
             src = workload.template_source(rng, (3, 7))
         else:
             src = rng.choice(workload.REPO_EXAMPLES)[1]
-        if kind in ("c", "e"):
-            # the -c form turns the two characters backslash-n into a newline: keep sources free of them
-            if "\\n" in src or "\r" in src or "\x00" in src:
-                src = "def f(a, *b):\n    'doc'\n    return a in {1, None}\n"
+        if "\r" in src or "\x00" in src:
+            src = "def f(a, *b):\n    'doc'\n    return a in {1, None}\n"
     plan = {"kind": "cli", "ver": ver, "hashseed": hs, "oracle_hashseed": hs if same_seed else rng.randint(0, 2 ** 32 - 1), "flags": flags,
             "source_kind": kind, "src": src, "module": rng.choice(CLI_MODULES) if kind == "m" else None, "warm": rng.chance(0.25), "warm_n": rng.randint(2, 3)}
     if invalid:
-        plan["invalid"] = rng.choice(["none", "two", "three", "four", "empty-c", "empty-c-plus-file", "empty-e", "two-with-empty"])
+        # the sources given on the command line, in order; "c0"/"e0" are the EMPTY -c / -e source (still one source each)
+        pool = ["file", "c", "e", "m", "c0", "e0"]
+        n = rng.choice([0, 1, 2, 2, 2, 3, 4])
+        if n == 1:
+            plan["sources"] = [rng.choice(["c0", "e0"])]
+        else:
+            picked = []
+            while len(picked) < n:
+                x = rng.choice(pool)
+                if x[0] not in [y[0] for y in picked]:
+                    picked.append(x)
+            plan["sources"] = picked
+        plan["invalid"] = "+".join(plan["sources"]) or "none"
     return plan
 
 
@@ -649,33 +665,26 @@ def cli_argv(plan, workdir):
             out.append("--" + k.replace("_", "-"))
     kind = plan["source_kind"]
     src = plan.get("src")
-    inv = plan.get("invalid")
     fpath = os.path.join(workdir, "prog.py")
-    if src is not None or inv:
-        with open(fpath, "w", encoding="utf-8") as f:
-            f.write(src if src is not None else "x = 1\n")
-    if inv:
+    with open(fpath, "w", encoding="utf-8") as f:
+        f.write(src if src is not None else "x = 1\n")
+    if "sources" in plan:
         simple = "x = 1"
-        table = {
-            "none": [],
-            "two": ["-c", simple, "-m", "this"],
-            "three": ["-c", simple, "-e", "'y = 2'", fpath],
-            "four": ["-c", simple, "-e", "'y = 2'", "-m", "this", fpath],
-            "empty-c": ["-c", ""],  # ONE (empty) program source: valid
-            "empty-e": ["-e", "''"],  # evaluates to the empty program: valid
-            "empty-c-plus-file": ["-c", "", fpath],  # two sources
-            "two-with-empty": ["-c", "", "-m", "this"],
-        }
-        argv = out + table[inv]
-        if inv == "empty-c":
+        args = []
+        for sk in plan["sources"]:
+            args += {"file": [fpath], "c": ["-c", simple], "e": ["-e", "'y = 2'"], "m": ["-m", "this"], "c0": ["-c", ""], "e0": ["-e", "''"]}[sk]
+        argv = out + args
+        if plan["sources"] == ["c0"]:
             return argv, {"source_kind": "c", "source": "", "filename": "<string>", "flags": flags}
-        if inv == "empty-e":
+        if plan["sources"] == ["e0"]:
             return argv, {"source_kind": "e", "source": "", "filename": "<string>", "flags": flags}
         return argv, None
     if kind == "file":
         return out + [fpath], {"source_kind": "file", "source": src, "filename": fpath, "flags": flags}
     if kind == "c":
-        return out + ["-c", src.replace("\n", "\\n")], {"source_kind": "c", "source": src, "filename": "<string>", "flags": flags}
+        # the CLI turns the two characters backslash-n of a -c argument into a newline -- and nothing else
+        arg = src.replace("\n", "\\n")
+        return out + ["-c", arg], {"source_kind": "c", "source": arg.replace("\\n", "\n"), "filename": "<string>", "flags": flags}
     if kind == "e":
         expr = " + linesep + ".join(repr(line) for line in src.split("\n"))
         expected_src = os.linesep.join(src.split("\n"))
@@ -810,10 +819,13 @@ def exec_cli(plan, tree, log=None):
             # not exactly one source: usage error, nothing on stdout
             log.count("fault_invalid_source_combination")
             if status != 2 or stdout != "":
-                log.violate("C16", "L1-usage-error-expected", inv, {"status": status, "stdout": stdout[:200], "argv": argv})
+                log.violate("C16", "L1-usage-error-expected", "+".join(sorted(x[0] for x in plan["sources"])) or "none",
+                            {"status": status, "stdout": stdout[:200], "argv": [a.replace(workdir, "<wd>") for a in argv], "sources_in_order": plan["sources"]})
             return log
         if inv:
             log.count("fault_empty_source")
+        elif plan["source_kind"] in ("c", "e") and "\\n" in (plan.get("src") or ""):
+            log.count("fault_source_with_literal_backslash_n")
         if plan["hashseed"] != plan["oracle_hashseed"]:
             log.count("fault_oracle_hash_seed_differs")
         oracle = cl.get("oracle", plan["ver"], plan["oracle_hashseed"])
@@ -827,7 +839,7 @@ def exec_cli(plan, tree, log=None):
                 log.violate("C16", "L1-exit-0-on-invalid-program", "compile", {"argv": argv})
             return log
         if status != 0:
-            log.violate("C16", "L1-nonzero-exit-on-valid-program", (inv or plan["source_kind"]) + ":" + classify_stderr(stderr),
+            log.violate("C16", "L1-nonzero-exit-on-valid-program", (inv and "empty-" + inv[0] or plan["source_kind"]) + ":" + classify_stderr(stderr),
                         {"status": status, "stderr": stderr[-300:], "argv": argv[:8]})
             return log
         expected = "".join(t for _, t in exp["sections"])
